@@ -10,6 +10,7 @@ import (
 	"time"
 
 	"github.com/gammazero/nexus/v3/simrt"
+	"github.com/gammazero/nexus/v3/wamp"
 )
 
 // Spec identifies one simulated run completely.
@@ -55,6 +56,15 @@ type Ctx struct {
 	Res      *Result
 	W        *World // set by the property when it builds a world
 	Thorough bool
+
+	dropsArmed *bool
+}
+
+// DisarmDrops ends queue-full injection for the rest of the run ("faults stop").
+func (c *Ctx) DisarmDrops() {
+	if c.dropsArmed != nil {
+		*c.dropsArmed = false
+	}
 }
 
 func (c *Ctx) Violf(format string, a ...any) {
@@ -91,6 +101,12 @@ type PropDef struct {
 	Run      PropFunc
 	Config   func(spec Spec, g *Rand) simrt.Config // optional: tune scheduler config
 	MaxSteps int
+	// Drops: in a quarter of the runs the broker's and dealer's non-blocking
+	// sends to clients (EVENT, INVOCATION, INTERRUPT, RESULT, ERROR) are made
+	// to find the queue full now and then - what a burst does to a client
+	// that is a little behind. Only for checks whose oracles account for
+	// messages the router reports as dropped.
+	Drops bool
 }
 
 var Props = map[string]*PropDef{}
@@ -153,8 +169,31 @@ func RunOne(t *testing.T, spec Spec) (res *Result) {
 				cfg.Seed = spec.SchedSeed
 				cfg.KeepLog = spec.KeepLog
 			}
+			dropsArmed := true
+			if p.Drops && !simrt.RaceEnabled {
+				dg := NewRand(Mix(spec.SchedSeed, 0xd509))
+				if dg.Intn(4) == 0 {
+					per := []int{12, 40, 150}[dg.Intn(3)]
+					cfg.DropHook = func(site string, ch any, v any) bool {
+						if !dropsArmed {
+							return false
+						}
+						if !strings.HasPrefix(site, "broker.go:") && !strings.HasPrefix(site, "dealer.go:") {
+							return false
+						}
+						// not the acknowledgements: the realm's own meta session waits
+						// for its REGISTERED at start-up, when no queue can be full
+						switch v.(type) {
+						case *wamp.Event, *wamp.Invocation, *wamp.Interrupt, *wamp.Result, *wamp.Error:
+						default:
+							return false
+						}
+						return dg.Intn(per) == 0
+					}
+				}
+			}
 			s := simrt.New(cfg)
-			c := &Ctx{Spec: spec, Gen: g, S: s, Res: res, Thorough: spec.Tier == "thorough"}
+			c := &Ctx{Spec: spec, Gen: g, S: s, Res: res, Thorough: spec.Tier == "thorough", dropsArmed: &dropsArmed}
 			res.Strategy = cfg.Strategy.String()
 			s.Run(func() { p.Run(c) })
 			res.Steps = s.StepCount()
